@@ -135,30 +135,9 @@ func Equal(a, b *Value, o EqOpts) bool {
 			}
 			return true
 		}
-		// order-insensitive comparison, stable within equal names (later-wins semantics of
-		// duplicate names must survive a reordering)
-		ia, ib := sortedIdx(a.Names), sortedIdx(b.Names)
-		stable := true
-		for k := range ia {
-			if a.Names[ia[k]] != b.Names[ib[k]] || !Equal(a.Members[ia[k]], b.Members[ib[k]], o) {
-				stable = false
-				break
-			}
-		}
-		if stable {
-			return true
-		}
-		// Names that only coincide after U+FFFD substitution of ill-formed bytes are distinct byte
-		// strings; their relative order is not defined by the documentation: compare as a multiset.
-		illFormed := false
-		for _, n := range a.RawNames {
-			if !WellFormed(n) {
-				illFormed = true
-			}
-		}
-		if !illFormed {
-			return false
-		}
+		// order-insensitive comparison as a multiset of (name, value) members. Members with equal
+		// names may be permuted too: the library orders them by value bytes on purpose, and the
+		// property allows member order to differ under ReorderRawObjects.
 		used := make([]bool, len(b.Names))
 	outer:
 		for i := range a.Names {
